@@ -102,6 +102,7 @@ def run(tier, work):
         raise vlib.Broken("the wheel model itself violates its invariants:\n" + mc["out"][-2000:])
     # ---- P2
     hists, gs = vlib.generate(SPEC, "CallOutGen", "GenQuick.cfg" if tier == "quick" else "GenThorough.cfg", work, "p2a")
+    hists, nexh = vlib.cap_histories(hists, 120000)
     nsim = 1500 if tier == "quick" else 30000
     sims, _ = vlib.generate(SPEC, "CallOutGen", "GenSim.cfg", work, "p2b", workers=4,
                             simulate="num=%d" % nsim, extra=["-depth", "8", "-seed", str(vlib.SEED)], timeout=900)
@@ -140,7 +141,7 @@ def run(tier, work):
         samples=samples, evaluations=len(exs), distinct_nontrivial=nontrivial,
         rule="histories of call_out/remove/find/tick/destruct steps printed by TLC from CallOutGen (BFS to the stated depth, plus -simulate); "
              "non-trivial = schedules at least one call_out and contains a tick; distinct by JSON text",
-        exhaustive=False, events_validated=nevents, driver_failures=ncrash,
+        exhaustive=False, enumerated_by_tlc=nexh, enumerated_run=len(hists), events_validated=nevents, driver_failures=ncrash,
         wheel_model="CallOutWheel C=4 " + ("MCWheelFixed.cfg" if tier == "quick" else "MCWheelThorough.cfg")),
         time.time() - t0, len(verdict.new),
         ["virtual time; the reactor, accept/recv/send and the timer thread are scripted at link time",
